@@ -117,6 +117,21 @@ private theorem step_ret (fr : Frame) (v : Val) (k : List Frame) (w : World) (B 
 private theorem step_raise (fr : Frame) (e : PyErr) (k : List Frame) (w : World) (B : List Nat) :
     step { ctl := .raise e, k := fr :: k, w := w, budgets := B } = (unwind fr e k w).withBudgets B := rfl
 
+/-- **any pending operation waits for its operand**: whatever frame `fr` is waiting (a unary operator, an
+    assignment or compound assignment, a slice bound, a pending argument list …), the operand beneath it is evaluated
+    completely — its own `n` steps, exactly as if alone — and exactly once, and only then is the frame resumed,
+    with the operand's value and in the world the operand left -/
+theorem operand_then_frame (fr : Frame) {B a vmi w n v w1} (ha : EvalsTo B a vmi w n v w1) (k : List Frame) :
+    run (n + 1) { ctl := .ev a vmi, k := fr :: k, w := w, budgets := B } = (resume fr v k w1).withBudgets B := by
+  rw [run_add, eval_in_context ha]
+  rfl
+
+/-- … and if the operand raises, the frame is unwound instead: its operation is never applied -/
+theorem operand_raises_then_unwind (fr : Frame) {B a vmi w n e w1} (ha : RaisesIn B a vmi w n e w1) (k : List Frame) :
+    run (n + 1) { ctl := .ev a vmi, k := fr :: k, w := w, budgets := B } = (unwind fr e k w1).withBudgets B := by
+  rw [run_add, raise_in_context ha]
+  rfl
+
 /-- **strict binary operator, big step**: once `a` is being evaluated with `b` pending, the machine evaluates `a`
     completely (its `na` steps, exactly as if alone), then `b` completely (its `nb` steps, in the world `a` left),
     then applies the operator ONCE to the two values — for operands of any size, under any pending context `k` -/
